@@ -222,6 +222,25 @@ def check_code(label: str, code, acc: Acc, source=None, fn=None):
             if got != first:
                 report(f"input-form-differs/{form}", f"the graph built from the {form} form differs from the graph built from the "
                                                      f"function's own code object", site=f"{PYTAG} {form}")
+        # history on one function OBJECT: its bytecode is replaced in place (hot reloaders assign __code__); the next build must
+        # describe the new bytecode
+        try:
+            import copy as _copy
+            keep = fn.__code__
+            want = ByteFlow.from_bytecode(_decoy.__code__)
+            want = {n: (type(b).__name__, b.begin, b.end, tuple(b._jump_targets)) for n, b in want.scfg.graph.items()}
+            fn.__code__ = _decoy.__code__
+            try:
+                got = ByteFlow.from_bytecode(fn)
+                got = {n: (type(b).__name__, b.begin, b.end, tuple(b._jump_targets)) for n, b in got.scfg.graph.items()}
+            finally:
+                fn.__code__ = keep
+            acc.counters["code_swaps_checked"] += 1
+            if got != want:
+                report("code-swap-stale", "after `f.__code__ = other.__code__` the graph built from f is not the graph of the new bytecode",
+                       site=f"{PYTAG} code-swap")
+        except (ValueError, TypeError):
+            acc.counters["code_swap_not_possible(closure)"] += 1
     acc.states += len(flow.scfg.graph)
     acc.transitions += sum(len(b._jump_targets) for b in flow.scfg.graph.values())
     if len(acc.samples) < 3 and len(flow.scfg.graph) >= 4 and source is not None:
